@@ -11,6 +11,7 @@ import QM.InstallModel
 import QM.Fs
 import QM.Search
 import QM.Writer
+import QM.Run
 
 /-! Line protocol of the model driver: the same operations as `src/verif_driver.rs` (answered by the
     model of the implementation) plus `spec_*` operations (answered by the specifications, used as
@@ -158,8 +159,49 @@ def pairsOf : List String → List (Str × Str)
   | a :: b :: r => (hexd a, hexd b) :: pairsOf r
   | _ => []
 
+/-- `process <dry> <out> <header> <mkdirOk> <cap> <nfaults> (<service path> <none|create|limit>)* <ndirs> <dir>* (<path> <text>)*`:
+    the whole run (QM/Run.lean) — exit status, errors with their paths, effects in order, and the output directory afterwards -/
+def processOp (f : List String) : String :=
+  match f with
+  | dryS :: outS :: hdr :: mk :: cap :: nf :: rest =>
+    let n := nf.toNat!
+    let fl := pairsOf' (rest.take (2 * n))
+    let rest := rest.drop (2 * n)
+    match rest with
+    | nd :: rest =>
+      let k := nd.toNat!
+      let t : Cv.Tree := { searchDirs := (rest.take k).map hexd, files := pairsOf (rest.drop k) }
+      let cfg : Cv.Cfg := { dryRun := dryS == "1", out := hexd outS, header := hexd hdr }
+      let faultOf : Str → Wr.Fault := fun p => match fl.lookup p with
+          | some "create" => Wr.Fault.create
+          | some "none" => Wr.Fault.none
+          | some l => Wr.Fault.sink l.toNat!
+          | none => Wr.Fault.none
+      let capN : Nat := cap.toNat!
+      let w : Cv.World := { mkdirOk := (mk == "1"), cap := capN, fault := faultOf }
+      let r := Cv.process cfg w t
+      if r.outOfModel then "out-of-model" else
+      let errs := r.errs.map fun
+        | .load p => "load:" ++ hexe p | .dropin p => "dropin:" ++ hexe p | .convert p e => "convert:" ++ hexe p ++ ":" ++ errVariant e
+        | .mkdir p => "mkdir:" ++ hexe p | .write p => "write:" ++ hexe p
+      let effs := r.effs.map fun
+        | .mkdir p => "mkdir:" ++ hexe p | .print p x => "print:" ++ hexe p ++ ":" ++ hexe x | .write p x => "write:" ++ hexe p ++ ":" ++ hexe x
+        | .writeFailed p => "writefailed:" ++ hexe p
+        | .enable sf ls => "enable:" ++ hexe sf ++ ":" ++ ",".intercalate (ls.map fun l => hexe l.1 ++ ">" ++ hexe l.2)
+      let d := Cv.finalOut cfg r
+      s!"ok exit={r.exit} errs=[" ++ " ".intercalate errs ++ "] effs=[" ++ " ".intercalate effs ++ "] files=["
+        ++ " ".intercalate (d.files.map fun x => hexe x.1 ++ "=" ++ hexe x.2) ++ "] links=["
+        ++ " ".intercalate (d.links.map fun x => hexe x.1 ++ ">" ++ hexe x.2) ++ s!"] clash={d.clash}"
+    | _ => "bad-op"
+  | _ => "bad-op"
+where
+  pairsOf' : List String → List (Str × String)
+    | a :: b :: r => (hexd a, b) :: pairsOf' r
+    | _ => []
+
 def step (line : String) : String :=
   match line.splitOn "\t" with
+  | "process" :: rest => processOp rest
   | "quote_words" :: ws => "ok " ++ hexe (P.quoteWords (ws.map hexd))
   | ["quote_value", a] => "ok " ++ hexe (P.quoteValue (hexd a))
   | ["unquote", a] => match P.unquoteValue true (hexd a) with
